@@ -187,6 +187,10 @@ pub fn behaviour(b: u64, rng: &mut Rng, out: &mut Out, big: bool, big_hi: u64) -
     out.line(&json!({"e":"reset","b":b,"tid":id_json(&tid),
         "nodes": u.iter().map(|x| json!({"id":id_json(&x.id),"ip":x.addr.ip().to_string(),"port":x.addr.port(),"sec":x.sec})).collect::<Vec<_>>()}));
     let mut table = RoutingTable::new(Id::from(tid));
+    // ONE request handler for the whole behaviour (what it remembers from request to request is part of what it serves), and
+    // a few targets that are asked for again and again while the table changes underneath
+    let mut server = v::LongLivedServer::new();
+    let hot: Vec<[u8; 20]> = (0..3).map(|_| target_near(&u, rng)).collect();
     let mut ops = 0u64;
     let nops = if full { n as u64 + 60 } else if big { n as u64 + 30 } else { rng.range(10, 70) };
     let mut sample_ops = vec![];
@@ -218,7 +222,7 @@ pub fn behaviour(b: u64, rng: &mut Rng, out: &mut Out, big: bool, big_hi: u64) -
             v::reset_id(&mut table, Id::from(nid));
             json!({"e":"op","op":"reset_id","tid":id_json(&nid)})
         } else if w < 92 {
-            let t = target_near(&u, rng);
+            let t = if rng.chance(1, 2) { *rng.pick(&hot) } else { target_near(&u, rng) };
             let ans = table.closest(Id::from(t));
             let idxs: Vec<i64> = ans.iter().map(|x| index.get(&(*x.id().as_bytes(), x.address())).map(|i| *i as i64 + 1).unwrap_or(-1)).collect();
             // ... "and therefore in find_node, get_peers and get responses": what a server holding this table (and an empty
@@ -233,7 +237,7 @@ pub fn behaviour(b: u64, rng: &mut Rng, out: &mut Out, big: bool, big_hi: u64) -
                 ("get_peers", v::RequestTypeSpecific::GetPeers(v::GetPeersRequestArguments { info_hash: target })),
                 ("get", v::RequestTypeSpecific::GetValue(v::GetValueRequestArguments { target, seq: None, salt: None })),
             ] {
-                let nodes = v::served_nodes(&table, &empty, from, v::RequestSpecific { requester_id, request_type: rt });
+                let nodes = server.served_nodes(&table, &empty, from, v::RequestSpecific { requester_id, request_type: rt });
                 let l: Vec<i64> = nodes.unwrap_or_default().iter().map(|x| index.get(&(*x.id().as_bytes(), x.address())).map(|i| *i as i64 + 1).unwrap_or(-1)).collect();
                 served.insert(name.to_string(), json!(l));
             }
